@@ -343,6 +343,11 @@ def run(check, an: Analysis):
     c07.check_immediacy(check, an, 'T')
     c07.check_run_root(check, an, 'T')
     _scope.check_child_failure_recorded(check, an, 'T')
+    # run(till=...) ends the simulation by closing its root tasks: a root that is closed
+    # while it waits at the end of a scope of its own must take its children with it, or
+    # they keep the loop busy beyond `till` (closing sequence, rule shared with C04)
+    from . import c04
+    c04.check_close_on_every_exit(check, an, 'T', _scope.scope_receivers(an))
     check.stats.update(an.stats())
 
 
